@@ -142,15 +142,40 @@ theorem feeBps_bounds {env : Env} (he : EnvNonneg env) {tok : String} {u f : Rat
     rw [hp] at h2
     exact h2
 
-/-- `amount * 10**decimal * price / 10**30`, rounded down -/
-def usdgOf (a : Rat) (dec : Nat) (P : Rat) : Rat := quantDown 0 (a * 10 ^ dec * P / 10 ^ 30)
+/-- `amount * 10**decimal * price / 10**30` rounded down, adjusted from the token's decimals to USDG's 18, rounded down -/
+def usdgOf (a : Rat) (dec : Nat) (P : Rat) : Rat :=
+  quantDown 0 (quantDown 0 (a * 10 ^ dec * P / 10 ^ 30) * 10 ^ 18 / 10 ^ dec)
 
 theorem toUsdg_ok {a P q : Rat} {dec : Nat} (h : toUsdg NumCtx.exact a dec P = .ok q) : q = usdgOf a dec P := by
   unfold toUsdg at h
-  have := qdown_ok h
-  rw [this]; unfold usdgOf
-  simp only [NumCtx.exact_mul, NumCtx.exact_div, Gen.gmxBuyUsdgDivisor]
+  rw [bind_ok] at h
+  obtain ⟨u, hu, hq⟩ := h
+  have h1 := qdown_ok hu
+  have h2 := qdown_ok hq
+  rw [h2, h1]; unfold usdgOf adjustDecimals
+  simp only [NumCtx.exact_mul, NumCtx.exact_div, Gen.gmxBuyUsdgDivisor, Gen.gmxUsdgDecimals]
   norm_num
+
+/-- the USDG credited for `a ≥ 0` tokens never exceeds their value `a × price` (in USDG wei) -/
+theorem usdgOf_le {a P : Rat} {dec : Nat} (ha : 0 ≤ a) (hP : 0 ≤ P) : usdgOf a dec P ≤ a * (P / 10 ^ 30) * 10 ^ 18 := by
+  unfold usdgOf
+  have hx : 0 ≤ a * 10 ^ dec * P / 10 ^ 30 := by positivity
+  have h1 := quantDown0_le hx
+  have h0 := quantDown0_nonneg hx
+  have hd : (0 : Rat) < 10 ^ dec := by positivity
+  have hy : 0 ≤ quantDown 0 (a * 10 ^ dec * P / 10 ^ 30) * 10 ^ 18 / 10 ^ dec := by positivity
+  calc quantDown 0 (quantDown 0 (a * 10 ^ dec * P / 10 ^ 30) * 10 ^ 18 / 10 ^ dec)
+      ≤ quantDown 0 (a * 10 ^ dec * P / 10 ^ 30) * 10 ^ 18 / 10 ^ dec := quantDown0_le hy
+    _ ≤ (a * 10 ^ dec * P / 10 ^ 30) * 10 ^ 18 / 10 ^ dec := by
+        apply div_le_div_of_nonneg_right _ (le_of_lt hd)
+        exact mul_le_mul_of_nonneg_right h1 (by positivity)
+    _ = a * (P / 10 ^ 30) * 10 ^ 18 := by field_simp
+
+theorem usdgOf_nonneg {a P : Rat} {dec : Nat} (ha : 0 ≤ a) (hP : 0 ≤ P) : 0 ≤ usdgOf a dec P := by
+  unfold usdgOf
+  have hx : 0 ≤ a * 10 ^ dec * P / 10 ^ 30 := by positivity
+  have h0 := quantDown0_nonneg hx
+  exact quantDown0_nonneg (by positivity)
 
 /-- `_collect_swap_fee` in closed form -/
 theorem afterFee_eq (a f : Rat) : afterFee NumCtx.exact a f = a - a * f / 10000 := by
@@ -220,7 +245,8 @@ theorem removeLiquidity_ok {env : Env} {tok : String} {dec : Nat} {g out fee : R
     (h : removeLiquidity NumCtx.exact env tok dec g = .ok (out, fee, br)) :
     ∃ r, env.row? tok = some r ∧ env.glpSupply ≠ 0 ∧ r.price / 10 ^ 30 ≠ 0 ∧
       feeBps NumCtx.exact env tok (quantDown 0 (g * 10 ^ 18 / env.glpSupply * aumU env)) false = .ok (fee, br) ∧
-      out = afterFee NumCtx.exact (quantDown 0 (g * 10 ^ 18 / env.glpSupply * aumU env) / (r.price / 10 ^ 30)) fee / 10 ^ dec := by
+      out = afterFee NumCtx.exact
+              (quantDown 0 (g * 10 ^ 18 / env.glpSupply * aumU env) / (r.price / 10 ^ 30) * 10 ^ dec / 10 ^ 18) fee / 10 ^ dec := by
   unfold removeLiquidity at h
   simp only [bind_ok] at h
   obtain ⟨au, hau, ps, hps, u, hu, ⟨o, f, b⟩, hs, hp⟩ := h
@@ -239,7 +265,8 @@ theorem removeLiquidity_ok {env : Env} {tok : String} {dec : Nat} {g out fee : R
     simp only [pure, Except.pure, Except.ok.injEq, Prod.mk.injEq] at hp
     obtain ⟨rfl, rfl, rfl⟩ := hp
     obtain ⟨hpne, rfl⟩ := ddiv_ok hred
-    simp only [NumCtx.exact_div, Gen.gmxPricePrecision] at hpne hf ⊢
+    unfold adjustDecimals
+    simp only [NumCtx.exact_div, NumCtx.exact_mul, Gen.gmxPricePrecision, Gen.gmxUsdgDecimals] at hpne hf ⊢
     have e30 : ((1000000000000000000000000000000 : Nat) : Rat) = 10 ^ 30 := by norm_num
     rw [e30] at hpne ⊢
     subst hu'
